@@ -158,6 +158,14 @@ impl<'a, 'tcx> Cx<'a, 'tcx> {
                                         st.push(J::s(txt));
                                     }
                                 }
+                                // const fn calls of the promoted body (e.g. RangeInclusive::new(a, b)) are terminators
+                                if let Some(t) = &bb.terminator {
+                                    if let TerminatorKind::Call { .. } = &t.kind {
+                                        let txt = with_no_trimmed_paths!(format!("{:?}", t.kind));
+                                        let txt = if txt.len() > 400 { txt.chars().take(400).collect::<String>() } else { txt };
+                                        st.push(J::s(txt));
+                                    }
+                                }
                             }
                             o.push(("pstmts", J::Arr(st)));
                         }
